@@ -11,8 +11,8 @@ import (
 
 // vCrashImage: the file left on disk when the session's writes log[0..r) were applied completely
 // and only the first k bytes of log[r] reached the disk (k symbolic; k == len means complete).
-func vCrashImage(log []vWriteRec, r int, k int) []byte {
-	var img []byte
+func vCrashImage(pre []byte, log []vWriteRec, r int, k int) []byte {
+	img := append([]byte{}, pre...)
 	apply := func(w vWriteRec) {
 		if w.trunc >= 0 {
 			for len(img) < w.trunc {
@@ -62,7 +62,7 @@ type vPutSpan struct {
 // without destroying acknowledged blocks, or yields a store that has every acknowledged block with
 // intact bytes and nothing that was not put; continuing and finalizing gives a valid archive.
 func VerifH_C06_StorageCrash() {
-	o := vSessOpts{v1: vBool("writeAsCarV1"), codec: 0x0401}
+	o := vSessOpts{v1: vBool("writeAsCarV1"), codec: 0x0401, storeID: vBool("storeIdentity")}
 	o.dataPad = uint64(7 * vChoose("dataPad", 2))
 	o.indexPad = uint64(5 * vChoose("indexPad", 2))
 	roots := []cid.Cid{vCidID("root")}
@@ -98,7 +98,7 @@ func VerifH_C06_StorageCrash() {
 		}
 		vAssume(k >= 0 && k <= lim)
 	}
-	img := vCrashImage(f.log, r, k)
+	img := vCrashImage(nil, f.log, r, k)
 	acked := func(s vPutSpan) bool {
 		return s.end <= r || (s.end == r+1 && f.log[r].trunc < 0 && k == len(f.log[r].data))
 	}
@@ -151,7 +151,7 @@ func VerifH_C06_StorageCrash() {
 	vCover("reopen-succeeded", true)
 	// every acknowledged block is present with intact bytes
 	for _, s := range spans {
-		if acked(s) && !vIsIdentity(s.e.c) {
+		if acked(s) && (o.storeID || !vIsIdentity(s.e.c)) {
 			has, herr := sc2.Has(ctx, s.e.c.KeyString())
 			vAssert("acknowledged-present", herr == nil && has)
 			got, gerr := sc2.Get(ctx, s.e.c.KeyString())
@@ -200,4 +200,123 @@ func spanEntries(spans []vPutSpan) []vEntry {
 		es = append(es, s.e)
 	}
 	return es
+}
+
+// VerifH_C06_CrashDuringResume: the session that is cut is itself a resumption: a finalized file
+// (one acknowledged block) is reopened for writing, optionally one more block is put and the store
+// finalized again; the cut falls anywhere in the writes of that second session (truncate, header
+// un-finalize, put, finalize). Reopening the crash image must not lose the acknowledged blocks.
+func VerifH_C06_CrashDuringResume() {
+	thorough := vTier() == 1
+	o := vSessOpts{v1: false, codec: 0x0401}
+	o.indexPad = uint64(5 * vChoose("indexPad", 2))
+	if thorough {
+		o.storeID = vBool("storeIdentity")
+		o.dataPad = uint64(7 * vChoose("dataPad", 2))
+	}
+	roots := []cid.Cid{vCidID("root")}
+	ctx := context.Background()
+	f := newVFile()
+	sc, err := NewReadableWritable(f, roots, o.list()...)
+	vAssert("open", err == nil)
+	old := vValidBlockT("old", 1)
+	vAssume(o.storeID || !vIsIdentity(old.c))
+	vAssert("put-ok", sc.Put(ctx, old.c.KeyString(), old.data) == nil)
+	vAssert("finalize-ok", sc.Finalize() == nil)
+	pre := append([]byte{}, f.data...)
+
+	// second session
+	start := len(f.log)
+	sc, err = OpenReadableWritable(f, roots, o.list()...)
+	vAssert("resume-ok", err == nil)
+	resumeEnd := len(f.log)
+	var spans []vPutSpan
+	if thorough && vChoose("put2", 2) == 1 {
+		b := vValidBlockT("blk", 1)
+		first := len(f.log)
+		vAssert("put2-ok", sc.Put(ctx, b.c.KeyString(), b.data) == nil)
+		spans = append(spans, vPutSpan{b, first - start, len(f.log) - start})
+	}
+	vNoCollisions(append(spanEntries(spans), old))
+	finalize := vChoose("finalize2", 2) == 1
+	finStart := len(f.log) - start
+	if finalize {
+		vAssert("finalize2-ok", sc.Finalize() == nil)
+	}
+	log := f.log[start:]
+	r := vChoose("crashRecord", len(log)+1)
+	k := 0
+	if r < len(log) {
+		k = vInt("crashByte")
+		lim := 1
+		if log[r].trunc < 0 {
+			lim = len(log[r].data)
+		}
+		vAssume(k >= 0 && k <= lim)
+	}
+	img := vCrashImage(pre, log, r, k)
+	acked := func(s vPutSpan) bool {
+		return s.end <= r || (s.end == r+1 && log[r].trunc < 0 && k == len(log[r].data))
+	}
+	started := func(s vPutSpan) bool { return r > s.first || (r == s.first && k > 0) }
+	tornPut := false
+	for _, s := range spans {
+		if started(s) && !acked(s) {
+			tornPut = true
+		}
+	}
+	hs := len(log) - 2
+	idxStarted := finalize && (r > finStart || (r == finStart && k > 0))
+	hdrStarted := finalize && (r > hs || (r == hs && k > 0))
+	hdrDone := r == len(log) || (r == len(log)-1 && log[r].trunc < 0 && k == len(log[r].data))
+	vRegion("torn-last-section", tornPut)
+	vRegion("index-without-header", idxStarted && !hdrStarted)
+	vRegion("torn-v2-header", hdrStarted && !hdrDone)
+	inResume := r < resumeEnd-start
+	vCover("cut-inside-resume-writes", inResume && k > 0)
+
+	g := &vFile{data: img, failAt: -1}
+	sc2, err := OpenReadableWritable(g, roots, o.list()...)
+	if err != nil {
+		// refused: the old acknowledged section must still be on disk
+		dataOff := 51 + int(o.dataPad)
+		hdrLen := len(vHeaderFrame(roots))
+		var fr bytes.Buffer
+		vWriteFrame(&fr, old)
+		end := dataOff + hdrLen + fr.Len()
+		vAssert("refusal-keeps-acknowledged-bytes", len(g.data) >= end && vBytesEq(g.data[dataOff+hdrLen:end], fr.Bytes()))
+		vCover("reopen-refused", true)
+		return
+	}
+	all := append([]vPutSpan{{e: old}}, spans...)
+	for i, s := range all {
+		if (i == 0 || acked(s)) && (o.storeID || !vIsIdentity(s.e.c)) {
+			has, herr := sc2.Has(ctx, s.e.c.KeyString())
+			vAssert("acknowledged-present", herr == nil && has)
+			got, gerr := sc2.Get(ctx, s.e.c.KeyString())
+			vAssert("acknowledged-intact", gerr == nil && vBytesEq(got, s.e.data))
+		}
+	}
+	ii := sc2.Index().(*index.InsertionIndex)
+	ii.ForEachCid(func(c cid.Cid, _ uint64) error {
+		known := false
+		for _, s := range all {
+			if s.e.c.Equals(c) {
+				known = true
+			}
+		}
+		vAssert("only-put-blocks", known)
+		return nil
+	})
+	nb := vValidBlockT("more", 1)
+	vNoCollisions(append(append(spanEntries(spans), old), nb))
+	vAssert("continue-put", sc2.Put(ctx, nb.c.KeyString(), nb.data) == nil)
+	vAssert("continue-finalize", sc2.Finalize() == nil)
+	rd, rerr := carv2.NewReader(bytes.NewReader(g.data))
+	vAssert("final-opens", rerr == nil)
+	if rerr == nil {
+		_, ierr := rd.Inspect(true)
+		vAssert("final-inspect-accepts", ierr == nil)
+	}
+	vCover("continued", true)
 }
